@@ -88,12 +88,12 @@ type admActor struct {
 }
 
 type admPlan struct {
-	Cfg    admCfg     `json:"cfg"`
-	Faulty bool       `json:"faulty"` // plan contains rewrites / deletes / clock jumps
+	Cfg    admCfg `json:"cfg"`
+	Faulty bool   `json:"faulty"` // plan contains rewrites / deletes / clock jumps
 	// Public: the group is listed publicly; group.Update() then installs the
 	// description it has read itself (a second path by which a description
 	// comes into force)
-	Public bool `json:"public,omitempty"`
+	Public bool       `json:"public,omitempty"`
 	Actors []admActor `json:"actors"`
 }
 
